@@ -16,26 +16,26 @@ long g_k, g_j, g_nmax;   /* ghost indices: stand for every position at once */
   __CPROVER_requires(__CPROVER_is_fresh(self->f_mem, POOLSZ)) \
   __CPROVER_requires(self->f_mem->f_previous == NULL || __CPROVER_is_fresh(self->f_mem->f_previous, POOLSZ)) \
   __CPROVER_requires(ARENA_WF(self)) \
-  __CPROVER_requires(0 <= v_n && v_n <= ((long)1 << 40)) \
+  __CPROVER_requires(0 <= IPR_ARG0 && IPR_ARG0 <= ((long)1 << 40)) \
   __CPROVER_assigns(self->f_mem, self->f_next_header, self->f_mem->f_previous) \
   __CPROVER_ensures(ARENA_WF(self)) \
   __CPROVER_ensures(__CPROVER_return_value != NULL) \
-  /* the block holds the header and v_n bytes of characters, all writable */ \
-  __CPROVER_ensures(__CPROVER_rw_ok(__CPROVER_return_value, HDRSZ * GRANULES(v_n))) \
-  __CPROVER_ensures(8 + v_n <= HDRSZ * GRANULES(v_n)) \
+  /* the block holds the header and IPR_ARG0 bytes of characters, all writable */ \
+  __CPROVER_ensures(__CPROVER_rw_ok(__CPROVER_return_value, HDRSZ * GRANULES(IPR_ARG0))) \
+  __CPROVER_ensures(8 + IPR_ARG0 <= HDRSZ * GRANULES(IPR_ARG0)) \
   /* case 1: carved from the current pool: starts where the free space started, free space now starts right after it */ \
   __CPROVER_ensures(__CPROVER_same_object(__CPROVER_return_value, __CPROVER_old(self->f_mem)) ==> \
       (__CPROVER_return_value == __CPROVER_old(self->f_next_header) && self->f_mem == __CPROVER_old(self->f_mem) \
        && self->f_mem->f_previous == __CPROVER_old(self->f_mem->f_previous) \
-       && OFF(self->f_next_header) == OFF(__CPROVER_return_value) + HDRSZ * GRANULES(v_n))) \
+       && OFF(self->f_next_header) == OFF(__CPROVER_return_value) + HDRSZ * GRANULES(IPR_ARG0))) \
   /* case 2: a new pool became current: block at its start, free space right after it, old pool chained behind */ \
   __CPROVER_ensures((!__CPROVER_same_object(__CPROVER_return_value, __CPROVER_old(self->f_mem)) && self->f_mem != __CPROVER_old(self->f_mem)) ==> \
       (__CPROVER_same_object(__CPROVER_return_value, self->f_mem) && OFF(__CPROVER_return_value) == 8 \
        && self->f_mem->f_previous == __CPROVER_old(self->f_mem) \
-       && OFF(self->f_next_header) == 8 + HDRSZ * GRANULES(v_n))) \
+       && OFF(self->f_next_header) == 8 + HDRSZ * GRANULES(IPR_ARG0))) \
   /* case 3: oversize word in a pool of its own, chained behind the current one; current pool and free space untouched */ \
   __CPROVER_ensures((!__CPROVER_same_object(__CPROVER_return_value, __CPROVER_old(self->f_mem)) && self->f_mem == __CPROVER_old(self->f_mem)) ==> \
-      (v_n > BUFSZ && __CPROVER_same_object(__CPROVER_return_value, self->f_mem->f_previous) && OFF(__CPROVER_return_value) == 8 \
+      (IPR_ARG0 > BUFSZ && __CPROVER_same_object(__CPROVER_return_value, self->f_mem->f_previous) && OFF(__CPROVER_return_value) == 8 \
        /* its `previous` (first word of the pool that starts 8 bytes before the block) links to what was behind the current pool */ \
        && *(void**)((char*)__CPROVER_return_value - 8) == (void*)__CPROVER_old(self->f_mem->f_previous) \
        && self->f_next_header == __CPROVER_old(self->f_next_header))) \
@@ -50,12 +50,12 @@ long g_k, g_j, g_nmax;   /* ghost indices: stand for every position at once */
   __CPROVER_requires(__CPROVER_is_fresh(self->f_mem, POOLSZ)) \
   __CPROVER_requires(self->f_mem->f_previous == NULL || __CPROVER_is_fresh(self->f_mem->f_previous, POOLSZ)) \
   __CPROVER_requires(ARENA_WF(self)) \
-  __CPROVER_requires(0 <= v_n && v_n <= g_nmax && g_nmax <= ((long)1 << 40)) \
-  __CPROVER_requires(__CPROVER_is_fresh(v_s, g_nmax + 1)) \
+  __CPROVER_requires(0 <= IPR_ARG1 && IPR_ARG1 <= g_nmax && g_nmax <= ((long)1 << 40)) \
+  __CPROVER_requires(__CPROVER_is_fresh(IPR_ARG0, g_nmax + 1)) \
   __CPROVER_assigns(self->f_mem, self->f_next_header, self->f_mem->f_previous, __CPROVER_object_whole(self->f_mem)) \
   __CPROVER_ensures(ARENA_WF(self)) \
-  __CPROVER_ensures(__CPROVER_return_value != NULL && __CPROVER_return_value->f_length == v_n) \
-  __CPROVER_ensures((0 <= g_k && g_k < v_n) ==> ((unsigned char*)__CPROVER_return_value)[8 + g_k] == v_s[g_k]) \
+  __CPROVER_ensures(__CPROVER_return_value != NULL && __CPROVER_return_value->f_length == IPR_ARG1) \
+  __CPROVER_ensures((0 <= g_k && g_k < IPR_ARG1) ==> ((unsigned char*)__CPROVER_return_value)[8 + g_k] == IPR_ARG0[g_k]) \
   /* nothing handed out earlier from the current pool is altered (g_j: any byte below the old free-space mark) */ \
   __CPROVER_ensures((8 <= g_j && g_j < OFF(__CPROVER_old(self->f_next_header))) ==> \
       ((unsigned char*)__CPROVER_old(self->f_mem))[g_j] == __CPROVER_old(((unsigned char*)self->f_mem)[g_j]))
